@@ -125,12 +125,20 @@ var c08Pool = func() []poolEntry {
 }()
 
 // dumpTree renders the whole source object through the public API.
+// dumpIDs: raw node ids are part of the dump only when one and the same tree object is compared
+// with itself (before/after an operation); across parses only the structure counts.
+var dumpIDs = true
+
 func dumpTree(src *formula.SourceCode) string {
 	if src == nil {
 		return "<nil source>"
 	}
 	var b strings.Builder
-	fmt.Fprintf(&b, "src[%d,%d) nodes=%d idents=%d linestarts=%v id=%d parent=%v eof=", src.Pos(), src.End(), src.NodeCount, src.IdentifierCount, src.LineStarts, src.ID(), src.Parent() != nil)
+	sid := src.ID()
+	if !dumpIDs {
+		sid = 0
+	}
+	fmt.Fprintf(&b, "src[%d,%d) nodes=%d idents=%d linestarts=%v id=%d parent=%v eof=", src.Pos(), src.End(), src.NodeCount, src.IdentifierCount, src.LineStarts, sid, src.Parent() != nil)
 	if src.EndOfFileToken != nil {
 		fmt.Fprintf(&b, "%d[%d,%d)", int(src.EndOfFileToken.Token), src.EndOfFileToken.Pos(), src.EndOfFileToken.End())
 	}
@@ -140,14 +148,22 @@ func dumpTree(src *formula.SourceCode) string {
 	b.WriteString(" tree=")
 	var rec func(e formula.Node)
 	hdr := func(e formula.Node, name string) {
-		fmt.Fprintf(&b, "(%s[%d,%d)#%d^%v", name, e.Pos(), e.End(), e.ID(), e.Parent() != nil)
+		id := e.ID()
+		if !dumpIDs {
+			id = 0
+		}
+		fmt.Fprintf(&b, "(%s[%d,%d)#%d^%v", name, e.Pos(), e.End(), id, e.Parent() != nil)
 	}
 	tok := func(t *formula.TokenNode) {
 		if t == nil {
 			b.WriteString(" tok<nil>")
 			return
 		}
-		fmt.Fprintf(&b, " tok%d[%d,%d)#%d^%v", int(t.Token), t.Pos(), t.End(), t.ID(), t.Parent() != nil)
+		id := t.ID()
+		if !dumpIDs {
+			id = 0
+		}
+		fmt.Fprintf(&b, " tok%d[%d,%d)#%d^%v", int(t.Token), t.Pos(), t.End(), id, t.Parent() != nil)
 	}
 	rec = func(e formula.Node) {
 		if e == nil || reflect.ValueOf(e).IsNil() {
@@ -279,6 +295,8 @@ func observe(entry, kind int, shared map[int]*formula.SourceCode) (obs string, f
 		if o.panicked {
 			return "panic:" + o.panicMsg, nil
 		}
+		dumpIDs = false // two parses of one text must be structurally identical; ids are not structure
+		defer func() { dumpIDs = true }()
 		s := dumpTree(o.src)
 		if o.err != nil {
 			s += " ERR=" + o.err.Error()
